@@ -25,6 +25,7 @@ class Conn:
     var_map: Dict[str, str] = field(default_factory=dict)    # input -> 'source' | 'pop/op/var'
     delay: Optional[F] = None
     spread: Optional[F] = None
+    edge_values: Dict[str, F] = field(default_factory=dict)  # 'op/var' -> value of an edge operator constant on THIS connection
 
 
 @dataclass
@@ -66,7 +67,8 @@ def explicit_spec(pm: PopModel) -> ModelSpec:
                         mp, mo, mv = m.split('/')
                         vm[k] = f"{unit(mp, i)}/{mo}/{mv}"
                 edges.append(EdgeSpec(f"{unit(sp, j)}/{so}/{sv}", f"{unit(tp, i)}/{to}/{tv}", F(w), delay=c.delay,
-                                      spread=c.spread, template=c.edge, var_map=vm))
+                                      spread=c.spread, template=c.edge, var_map=vm,
+                                      edge_overrides=dict(c.edge_values)))
     return ModelSpec('popmodel', pm.ops, nodes, edges, dict(pm.edge_tpls), note=pm.note)
 
 
@@ -92,6 +94,14 @@ def build_population(pm: PopModel):
         kw = {}
         if c.edge:
             kw['edge'] = et[c.edge]
+            if c.edge_values:
+                # the same operator template with other values for this connection
+                ovs = {}
+                for key, val in c.edge_values.items():
+                    o, v = key.split('/')
+                    ovs.setdefault(o, {})[v] = float(val)
+                kw['edge'] = EdgeTemplate(name=c.edge, path=None,
+                                          operators={ot[o]: ovs.get(o, {}) for o in pm.edge_tpls[c.edge].ops})
             kw['edge_var_map'] = dict(c.var_map)
         if c.delay is not None:
             kw['delays'] = float(c.delay)
